@@ -116,7 +116,7 @@ reg(
     "factors, tolerances 1e-12..1e-4 and budgets 1..50. The recorded iterates decide: reported iters = loop bodies executed, "
     "final_constraint = g(x), final_increment = last difference; feasible / budget-exhausted / early-stop classification; "
     "displacement in range(L L^T J^T) up to the last increment; affine => conditional mean after one iteration.",
-    "Trusted: numpy pinv/lstsq for the affine reference. Early stops on instances that are infeasible in range are the known finding D10.",
+    "Trusted: numpy pinv/lstsq for the affine reference. Early stops on instances that are infeasible in range are the known finding D10; early stops at the accuracy floor of the SVD-based inner solve on badly scaled factors (cond(J L) > 1e3) are the known finding D17.",
 )
 
 reg(
@@ -180,7 +180,7 @@ reg(
     "proxies. Oracles: subset equality incl. identical accepted-step traces; filter checkpoints = exact-transition prediction "
     "from the preceding accepted state, smoother checkpoints = 50-digit RTS through step ends united with checkpoints; "
     "offgrid_marginals of a save-every-step run; solve_adaptive_terminal_values (clip on/off).",
-    "Trusted: pdv/refmodel/{kalman,rtsref}.py. Fixed-point cases with an interpolation gap < 1e-5 are the known finding D14 "
+    "Trusted: pdv/refmodel/{kalman,rtsref}.py. Fixed-point cases with an interpolation gap < 1e-5 (or, from 4 derivatives on, < 1e-3..1e-2 of the step) are the known finding D14 "
     "(layouts that create such gaps are only generated in about half of the cases so that the others are judged strictly).",
 )
 
@@ -220,13 +220,13 @@ reg(
 reg(
     "C01",
     "accuracy monitor: jitted adaptive solves (save_at, terminal values, save-every-step) and fixed-grid refinement ladders on IVPs with closed-form / DOP853 solutions; constructed tiny-remainder final times; error/tolerance ratio and observed order judged",
-    "Seven IVPs (incl. a second-order ODE, Lotka-Volterra, van der Pol) x factorisation x calibration x strategy x TS0/TS1 x nu 1..6; "
+    "Eight IVPs (incl. a second-order ODE, Lotka-Volterra, van der Pol, a decay problem with rtol >> atol) x factorisation x calibration x strategy x TS0/TS1 x nu 1..6; "
     "per configuration several solves with tolerances in [1e-9,1e-2] (atol=rtol and atol!=rtol), dt0 log-uniform or from both "
     "initialisers, four checkpoint layouts, clip on/off, and final times placed 1e-2..1e-12 after a natural step end (from a "
     "save-every-step pass). Oracle: |mean-u| <= 50 (atol+rtol|u|) at every requested time. Ladders h..h/8: observed order >= "
     "nu+1-0.75 in the clean regime, >= nu-0.5 elsewhere (stated rule).",
     "Trusted: closed forms / SciPy DOP853 at 1e-13. Three method-level regimes where the statement is stricter than the method are "
-    "known findings D6, D15, D16 (the 50-digit EKF reproduces the repo's numbers there).",
+    "known findings D6, D6b, D15, D15b, D14b, D16 (the 50-digit EKF reproduces the repo's numbers there; D6b, D15b, D14b are tagged only after a control solve - exact Jacobian, no clipping, offending checkpoints removed - meets the tolerance).",
 )
 
 NOT_BUILT_REASON = "not claimed"
